@@ -366,6 +366,29 @@ def _is_sentinel(x: Any, s_: Term) -> Optional[Term]:
     return None
 
 
+def _tuple_or_none(x: Any) -> bool:
+    x = strip(x)
+    if x == NONE or (is_term(x) and x[0] == "tuple" and len(x) == 2):
+        return True
+    return is_term(x) and x[0] == "phi" and len(x) == 4 and _tuple_or_none(x[2]) and _tuple_or_none(x[3])
+
+
+def _none_ness(x: Any) -> Optional[Term]:
+    """`x is None` for a value that is built from displays, None and conditionals of them."""
+    x = strip(x)
+    if x == NONE:
+        return ("const", True)
+    if is_term(x) and x[0] in ("tuple", "dict", "bag"):
+        return ("const", False)
+    if is_term(x) and x[0] == "phi" and len(x) == 4:
+        a, b = _none_ness(x[2]), _none_ness(x[3])
+        if a is None or b is None:
+            return None
+        t = ("phi", x[1], a, b)
+        return _project(t) or t
+    return None
+
+
 def _project(t: Term) -> Optional[Term]:
     """One step of evaluation on a term whose parts are already normalised: field / index of a value-class
     constructor, conditionals on a constant, explicit default arguments."""
@@ -390,6 +413,10 @@ def _project(t: Term) -> Optional[Term]:
             return CONST_TABLES[t[1][1]][t[2][1]]
         if is_term(b) and b[0] == "tuple" and len(b) == 2 and -len(b[1]) <= t[2][1] < len(b[1]) and not any(is_term(x) and x[0] == "star" for x in b[1]):
             return b[1][t[2][1]]            # a component of a tuple display
+        if is_term(b) and b[0] == "phi" and len(b) == 4 and _tuple_or_none(b):
+            # a component of one of several tuple displays (None where there is no tuple: only reachable under a test)
+            x, y = ("idx", strip(b[2]), t[2]), ("idx", strip(b[3]), t[2])
+            return ("phi", b[1], _project(x) or x, _project(y) or y)
     elif k == "idx" and len(t) == 3 and is_term(t[1]) and ((t[1][0] == "glob" and t[1][1] in CONST_TABLES) or (t[1][0] == "dict" and t[1][1] and all(
             is_term(p[0]) and p[0][0] == "const" for p in t[1][1])) or (t[1][0] == "tuple" and len(t[1]) == 2 and len(t[1][1]) == 2)):
         # a literal lookup table
@@ -415,6 +442,23 @@ def _project(t: Term) -> Optional[Term]:
             return ("phi", key, tab[True], tab[False])
     elif k in ("phi", "ifexp") and len(t) == 4 and is_term(t[1]) and t[1][0] == "const":
         return t[2] if t[1][1] else t[3]
+    elif k == "cmp" and t[1] in ("<", "<=", "==", "!=") and is_term(t[2]) and is_term(t[3]) and t[2][0] == "const" and t[3][0] == "const" \
+            and type(t[2][1]) in (int, float, str) and type(t[3][1]) in (int, float, str) and (isinstance(t[2][1], str) == isinstance(t[3][1], str)):
+        a, b = t[2][1], t[3][1]
+        return ("const", {"<": a < b, "<=": a <= b, "==": a == b, "!=": a != b}[t[1]])
+    elif k in ("and", "or") and len(t) == 2 and any(is_term(x) and x[0] == "const" for x in t[1]):
+        keep = []
+        for x in t[1]:
+            if is_term(x) and x[0] == "const":
+                if bool(x[1]) == (k == "or"):
+                    return ("const", k == "or")
+                continue
+            keep.append(x)
+        return ("const", k == "and") if not keep else keep[0] if len(keep) == 1 else (k, tuple(keep))
+    elif k == "cmp" and t[1] in ("is", "isnot") and NONE in (t[2], t[3]) and is_term(t[2] if t[3] == NONE else t[3]) and (t[2] if t[3] == NONE else t[3])[0] in ("phi", "tuple", "dict", "bag") \
+            and _none_ness(t[2] if t[3] == NONE else t[3]) is not None:
+        r = _none_ness(t[2] if t[3] == NONE else t[3])
+        return r if t[1] == "is" else (("const", not r[1]) if r[0] == "const" else negate(r))
     elif k == "phi" and len(t) == 4 and t[2] == t[3]:
         return t[2]
     elif k == "phi" and len(t) == 4 and t[2] == ("const", True) and t[3] == ("const", False):
